@@ -443,6 +443,12 @@ func c07EndToEnd(sh *explore.Shard, idx *int64) {
 				}
 				sh.C.Outcome("e2e:" + sig.String())
 				sh.C.Nontrivial++
+				// --show-refs lists the references on stderr; the report is the same
+				res2 := cli.Run(gd, "", nil, 60*time.Second, append([]string{"--show-refs"}, args...)...)
+				sh.C.Evals++
+				if res2.Exit != 0 || string(res2.Stdout) != string(res.Stdout) {
+					mk("tally", fmt.Sprintf("with --show-refs the report differs (exit %d):\n%s\n--- without:\n%s", res2.Exit, clipText(string(res2.Stdout)), clipText(string(res.Stdout))))
+				}
 			}
 		}()
 	}
@@ -450,6 +456,6 @@ func c07EndToEnd(sh *explore.Shard, idx *int64) {
 
 func init() {
 	Registry["C07"] = &Check{Level: "exploration", Worker: c07Worker, QuickBudget: 60 * time.Second, ThoroughBudget: 10 * time.Minute,
-		Rule:        "all refgroup forests of <=2 (quick) / <=3 (thorough) user groups over 12 symbol shapes (nested, implicit parents, augmenting a built-in, rules on the built-in groups tags/branches themselves, named other/ignored/g.other) x 7 rule sets (incl. exclude-only and a regexp with top-level alternation) x display name, each in parent-first and child-first config order, x 4 selections, plus nesting depth 1..20 with implicit and explicit parents; real RefGroupBuilder + in-process scan of a 20-reference universe; JSON v1 tallies compared with the recursive definition of the statement, JSON v2 and the verbose table must be produced and agree; plus 8 hierarchies written to a real gitconfig as the user spells them (symbols differing only in case, mixed-case section/variable names, blanks, rules on built-in groups) x 4 selections through the real binary and real git. non-trivial = forests with >= 2 user groups and every nesting-depth case",
+		Rule:        "all refgroup forests of <=2 (quick) / <=3 (thorough) user groups over 12 symbol shapes (nested, implicit parents, augmenting a built-in, rules on the built-in groups tags/branches themselves, named other/ignored/g.other) x 7 rule sets (incl. exclude-only and a regexp with top-level alternation) x display name, each in parent-first and child-first config order, x 4 selections, plus nesting depth 1..20 with implicit and explicit parents; real RefGroupBuilder + in-process scan of a 20-reference universe; JSON v1 tallies compared with the recursive definition of the statement, JSON v2 and the verbose table must be produced and agree; plus 8 hierarchies written to a real gitconfig as the user spells them (symbols differing only in case, mixed-case section/variable names, blanks, rules on built-in groups) x 4 selections through the real binary and real git, each also with --show-refs (same report). non-trivial = forests with >= 2 user groups and every nesting-depth case",
 		Assumptions: []string{"refgroup configuration is served by a fake Configger implementing GetConfig's documented contract (C15 owns the real parser)"}}
 }
